@@ -4,6 +4,7 @@ import (
 	"crypto/sha256"
 	"encoding/hex"
 	"fmt"
+	"math/rand"
 	"os"
 	"sort"
 	"strings"
@@ -136,7 +137,7 @@ type Run struct {
 	hist       *history // C07
 	rawUploads []string
 	faultSeen  bool // a failing injected disk fault has hit some operation of this run
-	left       int // clients still running
+	left       int  // clients still running
 }
 
 // clientState is the per-client view of the operation in flight.
@@ -178,6 +179,11 @@ func Execute(p *Plan, scratch string) (res *Result) {
 			}
 		}
 	}
+	// goskiplist draws tower heights from the global math/rand source and calls
+	// back into instrumented comparison closures a number of times that depends
+	// on them: pin the global source so that the count of scheduling points is a
+	// function of the plan alone.
+	rand.Seed(p.Seed)
 	sim := simrt.NewSim(p.Seed^0x5eed, p.Config.Policy, p.Schedule, p.Replay, budget)
 
 	switch p.Config.Mode {
